@@ -4,28 +4,13 @@
    It also creates the scratch worktrees <wave-dir>/<Cxx>/wt of /repo HEAD.  Nothing under /verif is shown to the agents."""
 import os, sys, json, re, subprocess
 V = os.path.dirname(os.path.dirname(os.path.abspath(__file__)))
-CLAUSE = {
- 'C01': 'rarely used paths: the PRINCE base-structure folder, --all_lower, rulesets whose files were written by another tool of the project (edit_rules.py) or with unusual-but-legal number formats / line endings / trailing blank lines',
- 'C02': 'grammars with very many base structures or very long structures (10+ variables), single-entry variables, or structures that are prefixes of one another',
- 'C03': 'trainer option combinations (--alphabet, --ngram, --coverage, --multiword, --prefixcount, --save_sensitive, legacy encodings) and passwords at the length limits of the detectors',
- 'C04': 'capitalisation masks on words containing non-letters or non-ASCII letters, several alpha variables in one structure, or the --limit argument cutting an expansion short',
- 'C05': 'the interaction of two detectors on one password (keyboard walk next to a year, context string inside a multiword, e-mail followed by digits ...) or the length limits (min/max) of a detector',
- 'C06': 'the config.ini fields, the PRINCE grammar, capitalisation mask lists, or a training list with exactly one password / one structure',
- 'C07': 'the configuration file (encoding, uuid, file lists) as read by each tool, or rulesets copied / renamed / edited by edit_rules.py',
- 'C08': 'the save file itself (what is written, how it is parsed back: number formats, very small probabilities, locale, interrupted writes) or --load combined with other flags',
- 'C09': 'the honeyword / random-walk modes, --limit 0 or negative or huge, or the interplay of --limit with --skip_brute / --all_lower',
- 'C10': 'models with empty levels, a single initial n-gram, maximum length equal to the n-gram size, or very many strings at one level',
- 'C11': 'characters outside the learned alphabet, strings shorter than the n-gram size, or the smoothing / level-adjust arithmetic at the boundaries 0 and 10',
- 'C12': 'what happens at start-up and shut-down of the keyboard thread (very short runs, runs that finish before the thread starts, exceptions in the generator)',
- 'C13': 'the scorer command-line paths (input file encodings, --prefixcount-like options, output formats) or strings at the length limits of the detectors',
- 'C14': 'the two flags combined with each other, with --load, with the PRINCE folder, or with rulesets in which the Markov structure is the only / the first / the last one',
- 'C15': 'three or more quit/resume cycles that mix quits inside levels and outside, sessions resumed with another session name, or .sav/.omn files left over from an earlier session',
- 'C16': 'the --limit argument in honeyword mode, rulesets with a Markov structure and --skip_brute absent, or single-entry tables',
- 'C17': 'the e-mail provider / website host entries of the PRINCE grammar, --all_lower, or --size larger than / equal to the list',
- 'C18': 'levels above 10, lengths at the maximum, or the relation between omen_pws_per_level.txt and pcfg_omen_prob.txt',
- 'C19': 'line endings (CRLF, lone CR, no final newline), a byte-order mark, count prefixes with unusual spacing / zero / huge counts, or encodings other than UTF-8',
- 'C20': 'several filters combined, labels with multi-digit lengths, rulesets without some directories, or running the editor twice in a row',
-}
+MOTIVES = [
+ 'a lint / modernisation clean-up (f-strings, `==` vs `is`, comprehension or `enumerate` rewrites, `dict.get` / `setdefault`, `sorted` vs `.sort`, integer vs true division, default arguments, removing an "unused" variable or a "redundant" copy, replacing a hand-written loop by a library call whose corner cases differ)',
+ 'a portability change (open() with or without encoding / newline arguments, os.linesep, text vs binary mode, locale-dependent functions, path handling, Windows consoles, Python-version differences in str / float / random behaviour)',
+ 'hardening of error handling (a try/except that swallows or re-routes an error, a new validation that rejects or silently drops legal input, a retry, a default value substituted for a failure)',
+ 'a small new feature or option whose default is supposed to keep the old behaviour but does not in some corner (a new CLI flag, a new config field, a new output format, an environment variable)',
+]
+CLAUSE = {pid: 'the change should look like ' + MOTIVES[i % len(MOTIVES)] for i, pid in enumerate(['C%02d' % k for k in range(1, 21)])}
 def used():
     out = {}
     for line in open(os.path.join(V, 'DESIGN.md')):
